@@ -4,6 +4,7 @@ import Mathlib.Tactic.Linarith
 import Mathlib.Tactic.FinCases
 import Mathlib.Data.Fintype.Basic
 import Mathlib.Algebra.Order.Field.Basic
+import Mathlib.Algebra.Order.AbsoluteValue.Basic
 /-! C04: `_to_angle ∘ from_angle` and the Gauss-Jordan `inverse()` (helper lemmas). -/
 set_option linter.unusedSimpArgs false
 set_option linter.unusedSectionVars false
@@ -306,5 +307,118 @@ theorem gaussJordanInverse_mul {M N : Mat K} {eps : K} (he : 0 ≤ eps)
     · simpa using x2
     · simpa using y2
     · simpa using z2
+
+/-! ## Gimbal lock: the error of `from_angle ∘ to_angle` is at most twice the horizontal length -/
+
+theorem abs_le_of_mul_self_le {x h : K} (hx : x * x ≤ h * h) (h0 : 0 ≤ h) : |x| ≤ h := by
+  rw [abs_le]; constructor <;> nlinarith
+
+theorem abs_mul_le {x y X Y : K} (hx : |x| ≤ X) (hy : |y| ≤ Y) : |x * y| ≤ X * Y := by
+  rw [abs_mul]
+  exact mul_le_mul hx hy (abs_nonneg y) (le_trans (abs_nonneg x) hx)
+
+/-- scalar core of the gimbal bound -/
+theorem gimbal_core (aa ab ac ba bb bc ca cb cc h rg c s : K)
+    (r11 : aa * aa + ab * ab + ac * ac = 1) (r22 : ba * ba + bb * bb + bc * bc = 1)
+    (c33 : ac * ac + bc * bc + cc * cc = 1)
+    (cca : ca = ab * bc - ac * bb) (ccb : cb = ac * ba - aa * bc)
+    (hh : h * h = aa * aa + ab * ab) (h0 : 0 ≤ h) (h1 : h ≤ 1)
+    (hg : rg * rg = ba * ba + bb * bb) (hg0 : 0 ≤ rg)
+    (hc : c * rg = bb) (hs : s * rg = -ba) (hcs : c * c + s * s = 1) :
+    |h * c - aa| ≤ 2 * h ∧ |h * s - ab| ≤ 2 * h ∧ |-s - ba| ≤ 2 * h ∧ |c - bb| ≤ 2 * h ∧ |0 - bc| ≤ 2 * h
+    ∧ |-ac * c - ca| ≤ 2 * h ∧ |-ac * s - cb| ≤ 2 * h ∧ |h - cc| ≤ 2 * h := by
+  have f1 : bc * bc + cc * cc = h * h := by rw [hh]; linear_combination c33 - r11
+  have haa : |aa| ≤ h := abs_le_of_mul_self_le (by rw [hh]; linarith [mul_self_nonneg ab]) h0
+  have hab : |ab| ≤ h := abs_le_of_mul_self_le (by rw [hh]; linarith [mul_self_nonneg aa]) h0
+  have hbc : |bc| ≤ h := abs_le_of_mul_self_le (by rw [← f1]; linarith [mul_self_nonneg cc]) h0
+  have hcc : |cc| ≤ h := abs_le_of_mul_self_le (by rw [← f1]; linarith [mul_self_nonneg bc]) h0
+  have hc1 : |c| ≤ 1 := abs_le_of_mul_self_le (by linarith [mul_self_nonneg s]) zero_le_one
+  have hs1 : |s| ≤ 1 := abs_le_of_mul_self_le (by linarith [mul_self_nonneg c]) zero_le_one
+  have hac : |ac| ≤ 1 := abs_le_of_mul_self_le (by linarith [mul_self_nonneg aa, mul_self_nonneg ab]) zero_le_one
+  have hhabs : |h| = h := abs_of_nonneg h0
+  have hrg2 : rg * rg = 1 - bc * bc := by rw [hg]; linear_combination r22
+  have hrg1 : rg ≤ 1 := by
+    by_contra hcon
+    have : 1 < rg := not_le.mp hcon
+    nlinarith [mul_self_nonneg bc]
+  have hhh : h * h ≤ h := by nlinarith
+  have hd0 : 0 ≤ 1 - rg := by linarith
+  have hd2 : 1 - rg ≤ h * h := by
+    have hbb : bc * bc ≤ h * h := by rw [← f1]; linarith [mul_self_nonneg cc]
+    have : (1 - rg) * (1 + rg) = bc * bc := by linear_combination -hrg2
+    nlinarith [mul_nonneg hd0 hg0]
+  have hdabs : |1 - rg| ≤ h * h := by rw [abs_of_nonneg hd0]; exact hd2
+  have t1 : |h * c| ≤ h * 1 := abs_mul_le (le_of_eq hhabs) hc1
+  have t2 : |h * s| ≤ h * 1 := abs_mul_le (le_of_eq hhabs) hs1
+  refine ⟨?_, ?_, ?_, ?_, ?_, ?_, ?_, ?_⟩
+  · calc |h * c - aa| ≤ |h * c| + |aa| := abs_sub _ _
+      _ ≤ 2 * h := by linarith
+  · calc |h * s - ab| ≤ |h * s| + |ab| := abs_sub _ _
+      _ ≤ 2 * h := by linarith
+  · have e : -s - ba = -(s * (1 - rg)) := by linear_combination -hs
+    have := abs_mul_le hs1 hdabs
+    rw [e, abs_neg]; linarith
+  · have e : c - bb = c * (1 - rg) := by linear_combination hc
+    have := abs_mul_le hc1 hdabs
+    rw [e]; linarith
+  · rw [zero_sub, abs_neg]; linarith
+  · have e : -ac * c - ca = -((ac * c) * (1 - rg)) - ab * bc := by rw [cca, ← hc]; ring
+    have p1 := abs_mul_le (abs_mul_le hac hc1) hdabs
+    have p2 := abs_mul_le hab hbc
+    calc |-ac * c - ca| = |-((ac * c) * (1 - rg)) - ab * bc| := by rw [e]
+      _ ≤ |-((ac * c) * (1 - rg))| + |ab * bc| := abs_sub _ _
+      _ ≤ 2 * h := by rw [abs_neg]; linarith
+  · have e : -ac * s - cb = -((ac * s) * (1 - rg)) - (-(aa * bc)) := by
+      rw [ccb]; linear_combination (-ac) * hs
+    have p1 := abs_mul_le (abs_mul_le hac hs1) hdabs
+    have p2 := abs_mul_le haa hbc
+    calc |-ac * s - cb| = |-((ac * s) * (1 - rg)) - (-(aa * bc))| := by rw [e]
+      _ ≤ |-((ac * s) * (1 - rg))| + |-(aa * bc)| := abs_sub _ _
+      _ ≤ 2 * h := by rw [abs_neg, abs_neg]; linarith
+  · calc |h - cc| ≤ |h| + |cc| := abs_sub _ _
+      _ ≤ 2 * h := by rw [hhabs]; linarith
+
+/-- Every entry of `N` is within `b` of the corresponding entry of `M`. -/
+def Mat.Within (N M : Mat K) (b : K) : Prop :=
+  |N.aa - M.aa| ≤ b ∧ |N.ab - M.ab| ≤ b ∧ |N.ac - M.ac| ≤ b ∧
+  |N.ba - M.ba| ≤ b ∧ |N.bb - M.bb| ≤ b ∧ |N.bc - M.bc| ≤ b ∧
+  |N.ca - M.ca| ≤ b ∧ |N.cb - M.cb| ≤ b ∧ |N.cc - M.cc| ≤ b
+
+theorem gimbal_bound (thr : K) (M : Mat K) (hM : IsRotation M) (r : Radii K)
+    (hh : r.h * r.h = M.aa * M.aa + M.ab * M.ab)
+    (hp : r.rp * r.rp = M.ac * M.ac + r.h * r.h)
+    (hg : r.rg * r.rg = M.ba * M.ba + M.bb * M.bb)
+    (h0 : 0 ≤ r.h) (hp0 : 0 ≤ r.rp) (hg0 : 0 ≤ r.rg)
+    (hb : ¬ thr < r.h) (hthr1 : thr < 1) :
+    (fromAngle (toAngle thr M r)).Within M (2 * r.h) := by
+  have f := hM.facts
+  have h1 : r.h < 1 := lt_of_le_of_lt (not_lt.mp hb) hthr1
+  have hrp : r.rp = 1 := by
+    have : r.rp * r.rp = 1 := by rw [hp, hh]; linear_combination f.r11
+    nlinarith
+  have f1 : M.bc * M.bc + M.cc * M.cc = r.h * r.h := by rw [hh]; linear_combination f.c33 - f.r11
+  have hrg2 : r.rg * r.rg = 1 - M.bc * M.bc := by rw [hg]; linear_combination f.r22
+  have hrgne : r.rg ≠ 0 := by
+    intro hz
+    rw [hz] at hrg2
+    nlinarith [mul_self_nonneg M.cc]
+  have hc : M.bb / r.rg * r.rg = M.bb := div_mul_cancel₀ _ hrgne
+  have hs : -M.ba / r.rg * r.rg = -M.ba := div_mul_cancel₀ _ hrgne
+  have hcs : M.bb / r.rg * (M.bb / r.rg) + -M.ba / r.rg * (-M.ba / r.rg) = 1 := by
+    field_simp
+    linear_combination -hg
+  obtain ⟨g1, g2, g3, g4, g5, g6, g7, g8⟩ := gimbal_core M.aa M.ab M.ac M.ba M.bb M.bc M.ca M.cb M.cc
+    r.h r.rg (M.bb / r.rg) (-M.ba / r.rg) f.r11 f.r22 f.c33 f.cca f.ccb hh h0 (le_of_lt h1) hg hg0 hc hs hcs
+  simp only [toAngle, toAngleB, hb, if_false, atan2n, hrgne, hrp, one_ne_zero, div_one, fromAngle, Mat.Within]
+  refine ⟨?_, ?_, ?_, ?_, ?_, ?_, ?_, ?_, ?_⟩
+  · exact g1
+  · exact g2
+  · simp; linarith
+  · convert g3 using 2; ring
+  · convert g4 using 2; ring
+  · convert g5 using 2; ring
+  · convert g6 using 2; ring
+  · convert g7 using 2; ring
+  · convert g8 using 2; ring
 
 end C04
